@@ -120,6 +120,7 @@ class History:
         self.rnd = random.Random(seed)
         self.aut = trl.Automaton()
         self.aut.declare_variables(**DECL)
+        self.aut.declare_variables(x2=DECL['x'])        # a twin of x, target of simultaneous renamings (operation S)
         # a tiny game over separate variables, for synthesis inside the same context
         self.aut.declare_variables(e='bool', s='bool')
         self.tracked = []      # (label, bdd, z3 term at creation)
@@ -196,6 +197,22 @@ class History:
             v = rnd.choice(list(DECL))
             w = aut.exist({v}, u) if rnd.random() < 0.5 else aut.forall({v}, u)
             self.tracked.append((f'quantify {v} in ({label})', w, self.export(w)))
+        elif op == 'S' and rnd.random() < 0.35:
+            # simultaneous renaming: swap x with its twin x2 on a predicate that mentions both
+            from vlib import link
+            label, u, term = pick()
+            s2 = self.formula()
+            v2 = aut.let({'x': 'x2'}, aut.add_expr(s2))
+            w = aut.apply('xor', u, v2)
+            Wt = self.export(w)
+            bx, bx2 = link.bits_of('x', aut.vars['x']), link.bits_of('x2', aut.vars['x2'])
+            swapped = z3.substitute(Wt, *([(self.bits(a), self.bits(b)) for a, b in zip(bx, bx2)] +
+                                          [(self.bits(b), self.bits(a)) for a, b in zip(bx, bx2)]))
+            order = [('x', 'x2'), ('x2', 'x')]
+            if rnd.random() < 0.5:
+                order.reverse()
+            r = aut.let(dict(order), w)
+            self.tracked.append((f'x and x2 swapped in ({label}) xor ({s2})[x2/x]', r, swapped))
         elif op == 'S':
             label, u, term = pick()
             v = rnd.choice(['x', 'y'])
